@@ -400,3 +400,110 @@ func ruleW12(r *Run) {
 		r.Undec("big.Float.Int conversions in io", 0, "none found (the rule has nothing to decide: update it if the conversion moved)")
 	}
 }
+
+// B8: a back-reference decoded into a pointer takes the referenced object, it does not allocate a copy.
+
+func init() {
+	register("B8", "a decoder for pointer destinations that allocates the element and delegates the same tag to the element decoder (`*ptr = et.UnsafeNew(); elem.Decode(dec, .., tag)`) does not do so for a back-reference: TagRef is handled by its own clause (ReadReference on the pointer destination, where ptrCopy lets the pointer take the referenced object itself) - otherwise every shared or cyclic *T comes back as a pointer to a fresh copy, taken while the object may still be half decoded", 1, ruleB8)
+}
+
+func ruleB8(r *Run) {
+	p := r.P
+	pkg := p.Pkg("io")
+	if pkg == nil {
+		r.Undec("package io", 0, "not found")
+		return
+	}
+	info := pkg.TypesInfo
+	n := 0
+	for _, file := range pkg.Syntax {
+		for _, d := range file.Decls {
+			fd, ok := d.(*ast.FuncDecl)
+			if !ok || fd.Body == nil {
+				continue
+			}
+			// the tag parameter
+			var tagParam types.Object
+			for _, pv := range paramsOf(info, fd.Type) {
+				if b, ok := pv.Type().Underlying().(*types.Basic); ok && b.Kind() == types.Uint8 && pv.Name() == "tag" {
+					tagParam = pv
+				}
+			}
+			if tagParam == nil {
+				continue
+			}
+			parents := parentMap(fd.Body)
+			// allocation stored through a pointer: *ptr = X.UnsafeNew() / reflect.New
+			allocates := false
+			ast.Inspect(fd.Body, func(m ast.Node) bool {
+				as, ok := m.(*ast.AssignStmt)
+				if !ok || len(as.Lhs) != 1 || len(as.Rhs) != 1 {
+					return true
+				}
+				if _, isStar := ast.Unparen(as.Lhs[0]).(*ast.StarExpr); !isStar {
+					return true
+				}
+				if c, ok := ast.Unparen(as.Rhs[0]).(*ast.CallExpr); ok {
+					switch methodName(c) {
+					case "UnsafeNew", "New":
+						allocates = true
+					}
+				}
+				return true
+			})
+			if !allocates {
+				continue
+			}
+			k := 0
+			ast.Inspect(fd.Body, func(m ast.Node) bool {
+				c, ok := m.(*ast.CallExpr)
+				if !ok || methodName(c) != "Decode" || len(c.Args) != 3 || identObj(info, c.Args[2]) != tagParam {
+					return true
+				}
+				n++
+				k++
+				key := fmt.Sprintf("back-reference into a pointer destination in %s #%d", p.DeclName(fd), k)
+				// the delegation must be unreachable for TagRef: an enclosing `switch tag` has a TagRef clause elsewhere
+				excluded := false
+				for x := parents[c]; x != nil; x = parents[x] {
+					cc, ok := x.(*ast.CaseClause)
+					if !ok {
+						continue
+					}
+					sw, ok := parents[parents[cc]].(*ast.SwitchStmt)
+					if !ok || sw.Tag == nil || identObj(info, sw.Tag) != tagParam {
+						continue
+					}
+					for _, cs := range sw.Body.List {
+						other := cs.(*ast.CaseClause)
+						if other == cc {
+							continue
+						}
+						for _, e := range other.List {
+							if o := identObj(info, e); o != nil && refName(o.Name()) == "TagRef" {
+								excluded = true
+							}
+							if se, ok := ast.Unparen(e).(*ast.SelectorExpr); ok && se.Sel.Name == "TagRef" {
+								excluded = true
+							}
+						}
+					}
+				}
+				if !excluded {
+					for _, fc := range factsWithSwitch(parents, c) {
+						if be, ok := fc.e.(*ast.BinaryExpr); ok && identObj(info, be.X) == tagParam {
+							if o := identObj(info, be.Y); o != nil && o.Name() == "TagRef" && (be.Op == token.NEQ && !fc.neg || be.Op == token.EQL && fc.neg) {
+								excluded = true
+							}
+						}
+					}
+				}
+				r.Check(excluded, key, c.Pos(), "TagRef has its own clause", "the pointer decoder allocates a new element and hands the tag on to the element decoder also when the tag is a back-reference: the element decoder then COPIES the referenced object into the fresh element (dataCopy), so two pointers to one object decode to two objects, and a cycle n.Next == n comes back as a pointer to a half-filled copy of n")
+				return true
+			})
+		}
+	}
+	if n == 0 {
+		r.Undec("allocating pointer decoders", 0, "no function that allocates through *ptr and delegates its tag found")
+	}
+}
